@@ -47,10 +47,19 @@ fn main() {
         let srcty = if d.utf8 { "str" } else { "[u8]" };
         let _ = writeln!(
             out,
-            "fn run_{n}(src: &{srcty}, partial: bool, start_at: usize, max_items: usize) -> LexOut {{ run_generic::<{ty}>(src, partial, start_at, max_items) }}\n",
+            "fn run_{n}(src: &{srcty}, partial: bool, with_extras: bool, start_at: usize, max_items: usize) -> LexOut {{ run_generic::<{ty}>(src, partial, with_extras, start_at, max_items) }}\n",
             n = d.name
         );
         let _ = writeln!(infos, "    DefInfo {{ name: {:?}, utf8: {}, source: {:?}, run: Run::{}(run_{}), pats: &[", d.name, d.utf8, src, if d.utf8 { "Str" } else { "Bytes" }, d.name);
+        for (lit, prio, extra) in &d.skips {
+            let unicode = !lit.starts_with('b');
+            let lit_bytes = if unicode { format!("{}.as_bytes()", lit) } else { lit.to_string() };
+            let _ = writeln!(
+                infos,
+                "        PatInfo {{ is_token: false, lit: {}, unicode: {}, ignore_case: {}, prio: {}, cb: CbKind::Skip, var: \"<enum-level skip>\" }},",
+                lit_bytes, unicode, extra.contains("ignore(case)"), prio
+            );
+        }
         for p in &d.pats {
             let unicode = !p.lit.starts_with('b');
             let lit_bytes = if unicode { format!("{}.as_bytes()", p.lit) } else { p.lit.to_string() };
